@@ -1,17 +1,40 @@
 ------------------------------ MODULE MetaTrace ------------------------------
-(* Validates traces recorded from a real xtuml.MetaModel against Meta.tla.     *)
-EXTENDS Meta, TraceBase
+(* Validates traces recorded from a real xtuml.MetaModel against Meta.tla and   *)
+(* the observation operators of MetaObs.tla.                                    *)
+EXTENDS MetaObs, TraceBase
 
-TInit == Init /\ TBaseInit
+VARIABLE ph      \* 0: apply the next event's action; 1: compare the state reached with the event
+TInit == Init /\ TBaseInit /\ ph = 0
 
 KwOf(e) == [n \in (DOMAIN e.kw) \ {"_"} |-> e.kw[n]]
+G2(e) == IF e.g >= 0 THEN e.g ELSE gen + Len(IdSlots(e.c))
 
 Step(e) ==
-    CASE e.op = "New" -> New(e.c, e.pos, KwOf(e))
+    CASE e.op = "New" -> IF Len(e.ids) = Len(IdSlots(e.c)) THEN NewIds(e.c, e.pos, KwOf(e), e.ids, G2(e))
+                         ELSE New(e.c, e.pos, KwOf(e))
+      [] e.op = "NewUnknown" -> NewUnknown(e.c) /\ UNCHANGED mvars
       [] e.op = "Relate" -> Relate(e.x[1], e.x[2], e.y[1], e.y[2], e.rel, e.ph)
       [] e.op = "Unrelate" -> Unrelate(e.x[1], e.x[2], e.y[1], e.y[2], e.rel, e.ph)
       [] e.op = "RelateNone" -> RelateNone
       [] e.op = "Delete" -> Delete(e.x[1], e.x[2])
+      [] e.op = "SetAttr" -> SetAttr(e.x[1], e.x[2], e.n, e.v)
+      [] e.op = "DelAttr" -> IF Stored(e.x[1], e.x[2], e.n) THEN DelAttr(e.x[1], e.x[2], e.n)
+                             ELSE UNCHANGED mvars /\ res' = e.res
+      [] e.op = "GenNext" -> IF GenKind = "uuid" THEN /\ gen' = gen + 1 /\ used' = used \cup {e.id}
+                                                      /\ pk' = "" /\ res' = e.id
+                                                      /\ UNCHANGED <<pool, born, val, fwd, bwd>>
+                             ELSE GenNext(GenId(gen + 1))
+      [] e.op = "GenPeek" -> IF GenKind = "uuid" THEN /\ pk' = e.id /\ res' = e.id
+                                                      /\ UNCHANGED <<pool, born, val, fwd, bwd, gen, used>>
+                             ELSE GenPeek(GenId(gen + 1))
+
+\* nondeterministic actions are bound to the logged choice, which must be admissible
+Admissible(e) ==
+    CASE e.op = "New" /\ Len(e.ids) = Len(IdSlots(e.c)) -> IdsOK(e.c, e.pos, KwOf(e), e.ids, G2(e))
+      [] e.op = "DelAttr" /\ ~Stored(e.x[1], e.x[2], e.n) -> TRUE
+      [] e.op \in {"GenNext", "GenPeek"} /\ GenKind = "uuid" ->
+            e.id # "u:0" /\ e.id \notin used /\ (pk # "" => e.id = pk)
+      [] OTHER -> TRUE
 
 \* the abstract state as the adapter projects it through the public API
 ProjPool == pool
@@ -20,15 +43,72 @@ ProjNav == [a \in AIdx |-> [fwd |-> [k \in 1..born[Tgt(a)] |-> fwd[a][k]],
 ProjAttr == [c \in ClassSet |-> [k \in 1..Len(pool[c]) |->
                 [n \in Rng(AttrNames(c)) |-> Read(c, pool[c][k], n)]]]
 
+\* reads under other spellings, and the serialised values, all address the one stored value
+SpellOK(e) == \A c \in ClassSet : \A k \in DOMAIN e.spell[c] : \A n \in Rng(AttrNames(c)) :
+                 \A j \in DOMAIN e.spell[c][k][n] : e.spell[c][k][n][j] = Read(c, pool[c][k], n)
+
+\* reflexive sorting is judged by what the property fixes: every member once, every
+\* member followed by its successor, a lone ring starting at the set's first member
+SortOK(o, r) ==
+    LET c == o.c
+        q == IF o.all THEN pool[c] ELSE o.sub
+        exp == SortReflexive(c, q, o.rel, o.ph)
+    IN IF exp.e # "" \/ r.e # "" THEN r.e = exp.e
+       ELSE LET oph == OtherPhrase(c, o.rel, o.ph)[1]
+                nxt(i) == NavFrom(c, i, c, o.rel, oph)
+                prv(i) == NavFrom(c, i, c, o.rel, o.ph)
+                heads == {i \in Rng(q) : prv(i) = <<>>}
+                RECURSIVE Back(_, _, _)
+                \* does following the successors of j lead back to i
+                Back(i, j, fuel) == IF fuel = 0 \/ nxt(j) = <<>> THEN FALSE
+                                    ELSE nxt(j)[1] = i \/ Back(i, nxt(j)[1], fuel - 1)
+                onring == {i \in Rng(q) : Back(i, i, MaxI)}
+                whole == \A i \in Rng(q) : Rng(nxt(i)) \subseteq Rng(q) /\ Rng(prv(i)) \subseteq Rng(q)
+                indomain == /\ NoDup(q) /\ whole
+                            /\ \A i \in Rng(q) : Len(nxt(i)) <= 1 /\ Len(prv(i)) <= 1
+                            /\ (onring = {} \/ (onring = Rng(q) /\ \A i \in onring : (Back(i, q[1], MaxI) \/ i = q[1])))
+            IN ~indomain \/
+               IF onring = {}
+               THEN /\ NoDup(r.r) /\ Rng(r.r) = Rng(q)
+                    /\ \A k \in DOMAIN r.r :
+                          /\ (nxt(r.r[k]) # <<>>) => (k < Len(r.r) /\ r.r[k + 1] = nxt(r.r[k])[1])
+                          /\ (k = 1 \/ nxt(r.r[k - 1]) = <<>>) => r.r[k] \in heads
+               ELSE /\ NoDup(r.r) /\ Rng(r.r) = Rng(q) /\ r.r[1] = q[1]
+                    /\ \A k \in 1..(Len(r.r) - 1) : r.r[k + 1] = nxt(r.r[k])[1]
+
+ObsOK(e) == \A j \in DOMAIN e.q :
+               IF e.q[j].k = "sort" THEN SortOK(e.q[j], e.qr[j]) ELSE Eval(e.q[j]) = e.qr[j]
+
+FirstBadObs(e) == LET b == {j \in DOMAIN e.q : ~(IF e.q[j].k = "sort" THEN SortOK(e.q[j], e.qr[j]) ELSE Eval(e.q[j]) = e.qr[j])}
+                  IN IF b = {} THEN <<>> ELSE <<e.q[Min(b)], Eval(e.q[Min(b)])>>
+
+\* serialisation writes an unset value as the null value of its type
+NullOf(ty) == CASE ty = "UNIQUE_ID" -> "u:0" [] ty = "STRING" -> "s:" [] ty = "INTEGER" -> "i:0"
+                [] ty = "REAL" -> "r:0.0" [] ty = "BOOLEAN" -> "b:0" [] OTHER -> "?"
+SerOK(e) == \A c \in ClassSet : \A k \in DOMAIN e.ser[c] :
+               LET row == ProjAttr[c][k] IN
+               (\E n \in DOMAIN row : row[n] = "absent") \/
+               \A n \in DOMAIN row : e.ser[c][k][n] = (IF row[n] = "unset" THEN NullOf(AttrType(c, n)) ELSE row[n])
+
 Conform(e) == FirstBad(<<
-    <<"res", res' = e.res>>,
+    <<"res", res = e.res>>,
     <<"observable", e.oerr = "">>,
-    <<"pool", ProjPool' = e.pool>>,
-    <<"nav", ProjNav' = e.nav>>,
-    <<"attr", ProjAttr' = e.attr>>
+    <<"pool", ProjPool = e.pool>>,
+    <<"nav", ProjNav = e.nav>>,
+    <<"attr", ProjAttr = e.attr>>,
+    <<"spelling", SpellOK(e)>>,
+    <<"serialized", SerOK(e)>>,
+    <<"query", ObsOK(e)>>
   >>)
 
-TNext == /\ TEnabled
+Apply == /\ ph = 0 /\ TEnabled
          /\ Step(Ev)
-         /\ Advance(Conform(Ev), <<res', ProjPool', ProjNav'>>)
+         /\ IF Admissible(Ev) THEN ph' = 1 /\ UNCHANGED tvars
+                              ELSE ph' = 0 /\ Advance("admissible", <<>>)
+
+Check == /\ ph = 1 /\ UNCHANGED vars /\ ph' = 0
+         /\ LET b == Conform(Ev) IN
+            Advance(b, IF b = "query" THEN FirstBadObs(Ev) ELSE <<res, ProjPool, ProjNav, ProjAttr>>)
+
+TNext == Apply \/ Check
 =============================================================================
